@@ -32,6 +32,12 @@ Theorem C14_sites_covered :
 Proof. vm_compute. reflexivity. Qed.
 Print Assumptions C14_sites_covered.
 
+(* pin: the sort key of the 3D->2D conflict resolution is total up to the residue pair, so sorting a hash-ordered set of
+   candidates cannot make the matching depend on the hash seed *)
+Lemma C14_pin_sort_key_total : mapping_sort_key_total = true.
+Proof. reflexivity. Qed.
+Print Assumptions C14_pin_sort_key_total.
+
 (* pin: the all-dot-brackets list is sorted before it is returned *)
 Lemma C14_pin_alldb_sorted : alldb_sorted = true.
 Proof. reflexivity. Qed.
